@@ -20,7 +20,11 @@ CASE_TYPE = 'c19_case'
 CHECK = 'c19_check'
 SHOW = 'c19_show'
 SHARD = 75
-RULE = ('viz cases = ONE LineVizNx object reused for 2-4 posets (fresh ones or the previous one after POSet.add / del), '
+RULE = ('hist cases = a poset OBJECT with a history (POSet / UpperSemiLattice / Lattice over subset and divisibility '
+        'orders, ConceptLattice of a random context): 0-2 mutations, layout, 1-3 mutations, layout (, again) with '
+        'mutations add(fill_up_cache True/False), re-add of a removed element, del by index, remove by value, re-add of an '
+        'existing element, of the top, of the bottom; every layout judged against the order of the CURRENT elements '
+        'recomputed from scratch; viz cases = ONE LineVizNx object reused for 2-4 posets (fresh ones or the previous one after POSet.add / del), '
         'init_mover_per_poset(poset, layout) for both layouts each time (sometimes followed by draw_poset on the Agg '
         'backend), positions read from visualizer.mover.pos and judged like a layout case of the CURRENT poset; '
         'layout cases = (poset as comparison matrix, c, dpth) with calc_levels / fcart / multipartite outputs; '
@@ -264,7 +268,99 @@ def run_viz(case):
     return list(guarded(go, 60))
 
 
+def layout_step(P, rel, c, dpth):
+    """the three layout calls on a poset object as it is now"""
+    from fcapy.visualizer import line_layouts as ll
+    o = {'rel': rel}
+    try:
+        lv, ld = ll.calc_levels(P)
+        o['levels'] = [int(x) for x in lv]
+        o['ldict'] = [[int(x) for x in ld[k]] for k in range(len(ld))] if sorted(ld) == list(range(len(ld))) else None
+        fc = ll.fcart_layout(P, c=c, dpth=dpth)
+        o['fcart'] = [frac_pair(fc[i]) for i in range(len(fc))] if sorted(fc) == list(range(len(fc))) else None
+        mu = ll.LAYOUTS['multipartite'](P)
+        o['multi'] = [frac_pair(mu[i]) for i in range(len(mu))] if sorted(mu) == list(range(len(mu))) else None
+    except Exception as e:  # noqa
+        o['err'] = op_code(e)
+    return o
+
+
+def run_hist(case):
+    """a poset OBJECT with a history: POSet / UpperSemiLattice / Lattice / ConceptLattice, laid out, mutated
+    (add eagerly / lazily, delete by index, remove by value, re-add an existing element - also the top or the
+    bottom), laid out again.  The order of the CURRENT elements is recomputed from scratch for the judgement."""
+    def go():
+        from fcapy import poset as pm
+        cls = case['cls']
+        if cls == 'ConceptLattice':
+            from fcapy.context import FormalContext
+            from fcapy.lattice import ConceptLattice
+            P = ConceptLattice.from_context(FormalContext(data=[list(r) for r in case['table']]), algo=case.get('algo', 'CbO'))
+
+            def leq(a, b):
+                return set(a.extent_i) <= set(b.extent_i)
+
+            def mk(e):
+                return e
+        else:
+            car = case['carrier']
+            if car == 'subsets':
+                def mk(e):
+                    return frozenset(e)
+
+                def leq(a, b):
+                    return a <= b
+            else:
+                def mk(e):
+                    return e
+
+                def leq(a, b):
+                    return b % a == 0
+            els = [mk(e) for e in case['elements']]
+            P = getattr(pm, cls)(els, leq_func=leq, use_cache=case.get('use_cache', True))
+        removed = []
+        outs = []
+        log = []
+        for op in case['ops']:
+            k = op[0]
+            n = len(P)
+            els_now = list(P.elements)
+            try:
+                if k == 'layout':
+                    rel = [[bool(leq(a, b)) for b in els_now] for a in els_now]
+                    outs.append(layout_step(P, rel, op[1][0] / op[1][1], op[2]))
+                elif k == 'add':
+                    P.add(mk(op[1]), fill_up_cache=op[2])
+                elif k == 'addback':
+                    if removed:
+                        P.add(removed.pop(op[1] % len(removed)), fill_up_cache=op[2])
+                elif k in ('del', 'remove') and n > 0:
+                    i = op[1] % n
+                    e = els_now[i]
+                    if k == 'del':
+                        del P[i]
+                    else:
+                        P.remove(e)
+                    removed.append(e)
+                elif k == 'readd' and n > 0:
+                    P.add(els_now[op[1] % n], fill_up_cache=op[2])
+                elif k in ('readd_top', 'readd_bottom') and n > 0:
+                    if k == 'readd_top':
+                        cand = [a for a in els_now if all(leq(b, a) for b in els_now)]
+                    else:
+                        cand = [a for a in els_now if all(leq(a, b) for b in els_now)]
+                    if cand:
+                        P.add(cand[0], fill_up_cache=op[2])
+                log.append(0)
+            except Exception as e:  # noqa   (e.g. deleting the top of a semilattice is refused)
+                log.append(op_code(e))
+        return {'steps': outs, 'log': log}
+    return list(guarded(go, 60))
+
+
 def run_impl(case):
+    if case['kind'] == 'hist':
+        return run_hist(case)
     if case['kind'] == 'viz':
         return run_viz(case)
     return run_mover(case) if case['kind'] == 'mover' else run_layout(case)
@@ -310,6 +406,12 @@ def step_term(st, o):
 
 
 def to_coq(case, out):
+    if case['kind'] == 'hist':
+        lays = [{'c': op[1], 'dpth': op[2]} for op in case['ops'] if op[0] == 'layout']
+        steps = ('[' + '; '.join(step_term(st, o) for st, o in zip(lays, out[1]['steps'])) + ']') \
+            if (out[0] == 'ok' and len(out[1]['steps']) == len(lays)) \
+            else '[Build_viz_step 1 [[true]] (q 0 1) (0)%Z (LErr 11) [] (LErr 11) (LErr 11)]'
+        return 'Build_c19_case 2 0 [] (q 0 1) (0)%%Z (LErr 0) [] (LErr 0) (LErr 0) true [] [] [] [] %s' % steps
     if case['kind'] == 'viz':
         steps = ('[' + '; '.join(step_term(st, o) for st, o in zip(case['steps'], out[1])) + ']') if out[0] == 'ok' \
             else '[Build_viz_step 1 [[true]] (q 0 1) (0)%Z (LErr 11) [] (LErr 11) (LErr 11)]'
@@ -654,6 +756,90 @@ def viz_case(rng, max_n):
     return {'kind': 'viz', 'steps': steps, 'shape': 'viz'}
 
 
+DIVISORS_360 = [d for d in range(1, 361) if 360 % d == 0]
+HIST_CLASSES = ['POSet', 'POSet', 'UpperSemiLattice', 'Lattice', 'Lattice', 'ConceptLattice']
+
+
+def hist_case(rng, max_n):
+    cls = rng.choice(HIST_CLASSES)
+    case = {'kind': 'hist', 'cls': cls, 'shape': 'hist_' + cls, 'use_cache': rng.random() < 0.9}
+    pool = []
+    if cls == 'ConceptLattice':
+        h, w = rng.randint(2, 4), rng.randint(2, 4)
+        p = rng.choice([0.4, 0.6, 0.75])
+        case['table'] = [[rng.random() < p for _ in range(w)] for _ in range(h)]
+        case['algo'] = rng.choice(['CbO', 'Sofia', 'Lindig'])
+        case['use_cache'] = True
+    else:
+        car = rng.choice(['subsets', 'subsets', 'div'])
+        case['carrier'] = car
+        n = rng.randint(2, max(3, max_n - 2))
+        if car == 'subsets':
+            k = rng.choice([3, 4, 4, 5])
+            universe = [list(s) for r in range(k + 1) for s in itertools.combinations(range(k), r)]
+            top, bottom = list(range(k)), []
+        else:
+            universe = list(DIVISORS_360)
+            top, bottom = 360, 1
+        els = rng.sample(universe, min(n, len(universe)))
+        if cls in ('UpperSemiLattice', 'Lattice') and top not in els:
+            els.append(top)
+        if cls == 'Lattice' and bottom not in els:
+            els.append(bottom)
+        rng.shuffle(els)
+        targeted = None
+        if car == 'subsets' and rng.random() < 0.3:
+            # a chain with a side branch: deleting a middle element of the chain must re-hook its child to the
+            # element above although the child keeps another, incomparable parent; adding one back lazily puts
+            # an element between an old element and its old parent
+            m = rng.randint(3, 4)
+            chain = [list(range(j + 1)) for j in range(m)]
+            side = [[0, m], [0, 1, m]][:rng.randint(1, 2)]
+            k = m + 1
+            universe = [list(t) for r in range(k + 1) for t in itertools.combinations(range(k), r)]
+            top = list(range(k))
+            els = chain + side + ([top] if cls in ('UpperSemiLattice', 'Lattice') and top not in chain + side else []) \
+                + ([bottom] if cls == 'Lattice' else [])
+            k_mid = rng.randint(1, m - 2)
+            rng.shuffle(els)
+            targeted = els.index(chain[k_mid])
+        case['elements'] = els
+        pool = [e for e in universe if e not in els]
+        rng.shuffle(pool)
+
+    def lay():
+        c = rng.choice(C_CHOICES)
+        return ['layout', [c.numerator, c.denominator], rng.choice(DPTH_CHOICES)]
+
+    def mutation():
+        r = rng.random()
+        lazy = rng.random() < 0.5
+        if r < 0.34 and pool:
+            return ['add', pool.pop(), not lazy]
+        if r < 0.40:
+            return ['addback', rng.randrange(8), not lazy]
+        if r < 0.62:
+            return ['del', rng.randrange(16)]
+        if r < 0.72:
+            return ['remove', rng.randrange(16)]
+        if r < 0.82:
+            return ['readd', rng.randrange(16), not lazy]
+        if r < 0.93:
+            return ['readd_top', 0, not lazy]
+        return ['readd_bottom', 0, not lazy]
+    if cls != 'ConceptLattice' and targeted is not None:
+        ops = [lay(), [rng.choice(['del', 'remove']), targeted], lay(), ['addback', 0, rng.random() < 0.4], lay()]
+        case['ops'] = ops
+        return case
+    ops = [mutation() for _ in range(rng.choice([0, 0, 1, 2]))]
+    ops.append(lay())
+    for _ in range(rng.randint(1, 2)):
+        ops += [mutation() for _ in range(rng.randint(1, 3))]
+        ops.append(lay())
+    case['ops'] = ops
+    return case
+
+
 def generate(rng, tier):
     cases = []
     exl, exm = exhaustive_layouts(), exhaustive_mover()
@@ -662,13 +848,15 @@ def generate(rng, tier):
         n_lay, n_mov, max_n, max_ops = 7000, 7000, 12, 25
     else:
         cases += rng.sample(exl, 60) + rng.sample(exm, 60)
-        n_lay, n_mov, max_n, max_ops = 500, 500, 8, 8
+        n_lay, n_mov, max_n, max_ops = 350, 400, 8, 8
     for _ in range(n_lay):
         cases.append(random_poset_case(rng, max_n))
     for k in range(n_mov):
         cases.append(init_mover_case(rng, max_n, max_ops) if k % 5 == 4 else random_mover_case(rng, max_n, max_ops))
     for _ in range(n_mov // 5):
         cases.append(viz_case(rng, max_n))
+    for _ in range(n_mov // 2):
+        cases.append(hist_case(rng, max_n))
     return cases
 
 
@@ -686,6 +874,9 @@ def _levels_of(rel):
 
 
 def nontrivial(case):
+    if case['kind'] == 'hist':
+        return sum(1 for o in case['ops'] if o[0] == 'layout') >= 2 and \
+            len(case.get('elements') or case.get('table') or []) >= 3
     if case['kind'] == 'viz':
         return len(case['steps']) >= 2 and sum(1 for s in case['steps'] if s['mutate'] is None and len(s.get('rel') or s.get('elements') or []) >= 4) >= 1
     if case['kind'] == 'layout':
@@ -705,6 +896,12 @@ def nontrivial(case):
 
 
 def stats(case):
+    if case['kind'] == 'hist':
+        d = {'kind': 'hist', 'hist_class': case['cls'], 'hist_layouts': sum(1 for o in case['ops'] if o[0] == 'layout')}
+        for o in case['ops']:
+            if o[0] != 'layout':
+                d['hist_' + o[0] + ('_lazy' if (len(o) > 2 and o[2] is False) else '')] = True
+        return d
     if case['kind'] == 'viz':
         d = {'kind': 'viz', 'viz_steps': len(case['steps'])}
         for s in case['steps']:
@@ -731,6 +928,18 @@ def stats(case):
 
 def shrink(case):
     out = []
+    if case['kind'] == 'hist':
+        ops = case['ops']
+        for i in range(len(ops)):
+            if ops[i][0] == 'layout' and sum(1 for o in ops if o[0] == 'layout') <= 1:
+                continue
+            out.append(dict(case, ops=ops[:i] + ops[i + 1:]))
+        els = case.get('elements')
+        if els and len(els) > 1 and case['cls'] == 'POSet':
+            out += [dict(case, elements=els[:i] + els[i + 1:]) for i in range(len(els))]
+        if case['cls'] in ('UpperSemiLattice', 'Lattice'):
+            out.append(dict(case, cls='POSet'))
+        return out
     if case['kind'] == 'viz':
         st = case['steps']
         if len(st) > 1:
